@@ -1079,30 +1079,49 @@ theorem joinPath_ne (dir name : String) : joinPath dir (name ++ ".data") ≠ joi
   unfold joinPath at this
   split at this <;> simp [String.length_append] at this
 
-/-- **The whole save, fault-free, then `load`.** -/
-theorem save_load_ok (deep : Bool) (sig : List (String × Bool)) (tnames : List String) (dir name : String) (verbose : Bool)
+theorem destHits_nil (dest : String) (fs : FS) (heap : List TRef) :
+    ∀ {cv bs}, All2 (InitOK dest fs heap) cv bs → destHits dest heap cv = []
+  | _, _, .nil => rfl
+  | _, _, .cons hr ht => by
+    obtain ⟨id, t, rfl, h1, h2⟩ := hr
+    have ih := destHits_nil dest fs heap ht
+    unfold destHits at ih ⊢
+    simp only [List.filterMap_cons, h1]
+    cases t with
+    | mem b np => simpa using ih
+    | ext f o l v =>
+      have hne : f ≠ dest := h2.2.1
+      simp only [hne, if_false]
+      exact ih
+
+theorem read_congr (fs fs' : FS) (f : String) (o l : Nat) (h : FS.get? fs' f = FS.get? fs f) :
+    FS.read fs' f o l = FS.read fs f o l := by
+  unfold FS.read
+  rw [h]
+
+/-- `ir.save`, fault-free, then `load` — from the resulting file system or from any file system that agrees with it on
+the two files written. -/
+theorem irSave_load_ok (sig : List (String × Bool)) (tnames : List String) (dir name : String) (verbose : Bool)
     (s : St) (bs : List Bytes) (hk : s.k = none) (hsig : sig.length = s.cv.length)
     (hinit : All2 (InitOK (joinPath dir (name ++ ".data")) s.fs s.heap) s.cv bs) :
-    ∃ s', save deep sig tnames dir name verbose s = (.ok (), s') ∧ load s'.fs dir name = some (zip3 sig bs) := by
-  have hnone : ∀ c ∈ s.cv, c ≠ none := by
-    intro c hc
-    obtain ⟨b, id, t, rfl, _, _⟩ := all2_mem_left hinit c hc
-    simp
-  unfold save
-  simp only [bind_apply, get_apply, guardHits_nil deep sig s.cv hnone, List.isEmpty_nil, Bool.not_true, Bool.false_eq_true,
-    if_false]
+    ∃ s', irSave sig tnames dir name (name ++ ".data") verbose s = (.ok (), s') ∧
+      ∀ fs', FS.get? fs' (joinPath dir name) = FS.get? s'.fs (joinPath dir name) →
+        FS.get? fs' (joinPath dir (name ++ ".data")) = FS.get? s'.fs (joinPath dir (name ++ ".data")) →
+        load fs' dir name = some (zip3 sig bs) := by
   unfold irSave tryFinally
   simp only [bind_apply, get_apply]
   obtain ⟨s4, img, e4, k4, wo4, fs4, hfin⟩ := unload_ok (joinPath dir (name ++ ".data")) verbose tnames s bs hk hinit
   rw [e4]
-  simp only []
+  simp only [modify_apply]
   have hlen : sig.length = s4.cv.length := by
     rw [all2_length hfin, ← all2_length hinit]; exact hsig
   have hne := joinPath_ne dir name
   obtain ⟨p, hp1, hp2⟩ := serialize_load (joinPath dir (name ++ ".data")) s4 hfin sig hlen
   simp only [serialize, hp1]
   unfold fsOpenW withClose fsWriteProto
-  simp only [bind_apply, tick_ok _ s4 (by rw [k4]; exact hk), modify_apply]
+  simp only [bind_apply, modify_apply]
+  rw [tick_ok _ _ (by show s4.k = none; rw [k4]; exact hk)]
+  simp only [modify_apply]
   rw [needHandle_ok (joinPath dir name) _ (by simp)]
   simp only []
   rw [tick_ok _ _ (by show s4.k = none; rw [k4]; exact hk)]
@@ -1110,8 +1129,54 @@ theorem save_load_ok (deep : Bool) (sig : List (String × Bool)) (tnames : List 
   rw [tick_ok _ _ (by show s4.k = none; rw [k4]; exact hk)]
   refine ⟨_, rfl, ?_⟩
   simp only [set_set]
+  intro fs' hmp hdest
   unfold load
+  rw [hmp]
   simp only [get?_set_eq]
-  exact hp2 _ (fun o len => read_set_ne _ _ _ _ _ _ hne)
+  apply hp2 fs'
+  intro o len
+  rw [read_congr _ _ _ _ _ hdest]
+  exact read_set_ne _ _ _ _ _ _ hne
+
+/-- **The whole save, fault-free, then `load`.** -/
+theorem save_load_ok (cfg : Cfg) (sig : List (String × Bool)) (tnames : List String) (dir name : String) (verbose : Bool)
+    (s : St) (bs : List Bytes) (hk : s.k = none) (hsig : sig.length = s.cv.length)
+    (hinit : All2 (InitOK (joinPath dir (name ++ ".data")) s.fs s.heap) s.cv bs) :
+    ∃ s', save cfg sig tnames dir name verbose s = (.ok (), s') ∧
+      ∀ fs', FS.get? fs' (joinPath dir name) = FS.get? s'.fs (joinPath dir name) →
+        FS.get? fs' (joinPath dir (name ++ ".data")) = FS.get? s'.fs (joinPath dir (name ++ ".data")) →
+        load fs' dir name = some (zip3 sig bs) := by
+  have hnone : ∀ c ∈ s.cv, c ≠ none := by
+    intro c hc
+    obtain ⟨b, id, t, rfl, _, _⟩ := all2_mem_left hinit c hc
+    simp
+  obtain ⟨s', h1, h2⟩ := irSave_load_ok sig tnames dir name verbose s bs hk hsig hinit
+  unfold save
+  simp only [bind_apply, get_apply, guardHits_nil cfg.deep sig s.cv hnone, destHits_nil _ _ _ hinit, List.isEmpty_nil,
+    Bool.not_true, Bool.false_eq_true, Bool.and_false, if_false]
+  by_cases hkn : cfg.keepNames = true
+  · simp only [hkn, if_true, tryFinally, h1]
+    exact ⟨_, rfl, h2⟩
+  · have hf : cfg.keepNames = false := by simpa using hkn
+    simp only [hf, Bool.false_eq_true, if_false]
+    exact ⟨s', h1, h2⟩
+
+/-! ## Path arithmetic -/
+
+theorem append_right_cancel (a b c : String) (h : a ++ c = b ++ c) : a = b := by
+  have := congrArg String.toList h
+  simp only [String.toList_append] at this
+  exact String.toList_inj.mp (List.append_cancel_right this)
+
+theorem append_left_cancel (a b c : String) (h : c ++ a = c ++ b) : a = b := by
+  have := congrArg String.toList h
+  simp only [String.toList_append] at this
+  exact String.toList_inj.mp (List.append_cancel_left this)
+
+theorem joinPath_inj (dir a b : String) (h : joinPath dir a = joinPath dir b) : a = b := by
+  unfold joinPath at h
+  split at h
+  · exact h
+  · exact append_left_cancel _ _ _ h
 
 end OV.C20
